@@ -221,7 +221,8 @@ class Ctx:
                     sig, addr, case, plat, phase = m.groups()
                     platname = ["native", "portable", "sse2", "sse41", "avx2", "avx512"][int(plat)] if int(plat) < 6 else "native"
                     rargs = list(args) + ["--only", case, "--platforms", platname]
-                    self.add_violation("%s/%s/fatal-signal-%s" % (self.pid, args[0], sig),
+                    owner = "C07" if (args[0] in ("kern", "probes") or "--guard" in args) else self.pid
+                    self.add_violation("%s/%s/fatal-signal-%s" % (owner, args[0], sig),
                                        "fatal signal %s at address %s while case %s (platform %s) was in flight" % (sig, addr, case, platname),
                                        {"kind": "mon", "flavour": flavour, "profile": profile, "args": rargs, "seed": self.seed, "tier": self.tier})
                     step["verdict"] = "violated"
@@ -247,6 +248,15 @@ class Ctx:
             except OSError:
                 pass
 
+    def mon_sharded(self, name, flavour, profile, args, shards=None, **kw):
+        """Run a monitor as `shards` single-threaded processes (arena-heavy monitors: mprotect
+        on many threads of one process contends on the address-space lock)."""
+        shards = shards or min(NCPU, 16)
+        cargo_build(flavour, profile) if not kw.get("binary") else None
+        self.parallel([(lambda i=i: self.mon("%s#%d" % (name, i), flavour, profile,
+                                             list(args) + ["--threads", "1", "--shard", str(i), "--shards", str(shards)], **kw))
+                       for i in range(shards)], workers=shards)
+
     def fold(self, name, flavour, profile, rep, must_observe=True):
         with self.lock:
             self.evaluations += rep["evaluations"]
@@ -266,6 +276,10 @@ class Ctx:
             if rep.get("counters", {}).get("harness_panics", 0) > 0:
                 raise HarnessError("%s: %d harness panics (monitor bug): %s" % (name, rep["counters"]["harness_panics"], rep.get("inconclusive", [])[:3]))
             for v in rep["violations"]:
+                if not _own(self.pid, v["sig"]):
+                    other = self.observations.setdefault("signatures_of_other_properties_seen", {})
+                    other[v["sig"]] = other.get(v["sig"], 0) + 1
+                    continue
                 self.violations.append({"sig": v["sig"], "detail": v["detail"],
                                         "replay": {"kind": "mon", "flavour": flavour, "profile": profile, "args": v["replay_args"], "seed": self.seed, "tier": self.tier}})
             if must_observe and rep["evaluations"] == 0:
@@ -400,6 +414,12 @@ def replay(ctx, path):
         if rc != 0:
             ctx.add_violation(rec["signature"], "replayed command exited %s" % rc, r)
         ctx.evaluations += 1
+    elif r["kind"] == "miri":
+        miri_run(ctx, "replay", r["args"], shards=1, flavour=r.get("flavour", "pure"), miriflags=r.get("miriflags", ""))
+    elif r["kind"] == "cdrv":
+        gen_extra = list(r.get("gen_extra") or []) + ["--only", str(r["idx"])]
+        cdrv_run(ctx, "replay", r["variant"], r["san"], r["what"], scale=r.get("scale", 1.0), shards=1, gen_extra=gen_extra,
+                 wrapper=r.get("wrapper"))
     else:
         import props
         props.replay_special(ctx, rec)
@@ -414,3 +434,230 @@ def replay(ctx, path):
         return 1
     print("replay: no violation reproduced")
     return 0
+
+
+# --------------------------------------------------------------------------------------------
+# C driver runs (generator | cdrv), sharded over processes
+# --------------------------------------------------------------------------------------------
+def _own(pid, sig):
+    return sig.startswith(pid + "/")
+
+
+def cdrv_run(ctx, name, variant, san, what, scale=1.0, shards=None, gen_extra=None, wrapper=None, env_extra=None,
+             exe=None, timeout=3600, trace=False):
+    """Run `mon gen-cscript ... | cdrv` in `shards` parallel pairs. Folds violations whose
+    signature belongs to ctx.pid; signatures of other properties are only noted."""
+    import cbuild
+    mon = cargo_build("asm", "release")
+    exe = exe or cbuild.build(variant, san)
+    shards = shards or min(NCPU, 16)
+    gen_extra = list(gen_extra or [])
+    results = [None] * shards
+
+    def one(i):
+        gen_cmd = [mon, "gen-cscript", "--cvariant", variant, "--what", what, "--seed", str(ctx.seed), "--tier", ctx.tier,
+                   "--scale", str(scale), "--shard", str(i), "--shards", str(shards)] + gen_extra
+        env = env_base()
+        if env_extra:
+            env.update(env_extra)
+        if trace:
+            env["CDRV_TRACE"] = "1"
+        t0 = time.time()
+        g = subprocess.Popen(gen_cmd, stdout=subprocess.PIPE, stderr=subprocess.PIPE, env=env_base())
+        d = subprocess.Popen(list(wrapper or []) + [exe], stdin=g.stdout, stdout=subprocess.PIPE, stderr=subprocess.PIPE, env=env)
+        g.stdout.close()
+        try:
+            out, err = d.communicate(timeout=timeout)
+            gerr = g.stderr.read().decode("utf-8", "replace")
+            g.wait(timeout=60)
+            results[i] = (d.returncode, out.decode("utf-8", "replace"), err.decode("utf-8", "replace"), gerr, g.returncode, time.time() - t0)
+        except subprocess.TimeoutExpired:
+            d.kill()
+            g.kill()
+            results[i] = ("timeout", "", "", "", 0, time.time() - t0)
+
+    with concurrent.futures.ThreadPoolExecutor(max_workers=shards) as ex:
+        list(ex.map(one, range(shards)))
+
+    records = 0
+    distinct = 0
+    kc = {}
+    other = {}
+    nviol = 0
+    tool_reports = []
+    samples = []
+    for i, r in enumerate(results):
+        rc, out, err, gerr, grc, wall = r
+        if rc == "timeout":
+            ctx.note_inconclusive("%s shard %d: watchdog fired" % (name, i))
+            continue
+        if grc != 0 or "GEN-DONE" not in gerr:
+            raise HarnessError("%s shard %d: generator failed rc=%s: %s" % (name, i, grc, gerr[-800:]))
+        for line in gerr.splitlines():
+            if line.startswith("THIRD-VOICE-DISAGREE"):
+                ctx.add_violation("C06/rust-crate-disagrees-with-specmodel", line, {"kind": "none"})
+        done = False
+        for line in out.splitlines():
+            if line.startswith("V idx="):
+                m = re.match(r"V idx=(\d+) sig=(\S+) detail=(.*)", line)
+                idx, sig, detail = m.groups()
+                nviol += 1
+                if _own(ctx.pid, sig):
+                    ctx.add_violation(sig, "[%s] %s" % (name, detail),
+                                      {"kind": "cdrv", "variant": variant, "san": san, "what": what, "idx": int(idx), "gen_extra": gen_extra,
+                                       "seed": ctx.seed, "tier": ctx.tier, "scale": scale})
+                else:
+                    other[sig] = other.get(sig, 0) + 1
+            elif line.startswith("KC ") or line.startswith("AC "):
+                _, k, v = line.split()
+                kc[k] = kc.get(k, 0) + int(v)
+            elif line.startswith("TRAMP "):
+                for part in line.split()[1:]:
+                    k, v = part.split("=")
+                    kc["trampoline_calls_" + k] = kc.get("trampoline_calls_" + k, 0) + int(v)
+            elif line.startswith("DISTINCT "):
+                distinct += int(line.split()[1])
+            elif line.startswith("DONE "):
+                done = True
+                m = re.search(r"records=(\d+)", line)
+                records += int(m.group(1))
+        # tool reports (ASan/UBSan/TSan/valgrind) and abnormal exits
+        death = re.search(r"SANITIZER-DEATH idx=(\d+)", err)
+        if death or "ERROR: AddressSanitizer" in err or "runtime error:" in err or "WARNING: ThreadSanitizer" in err:
+            idx = int(death.group(1)) if death else -1
+            head = "\n".join([l for l in err.splitlines() if l.strip()][:14])
+            kind = "asan" if "AddressSanitizer" in err else "tsan" if "ThreadSanitizer" in err else "ubsan"
+            frame = re.search(r"#\d+ 0x[0-9a-f]+ in (blake3_\w+|compress_\w+|hasher_\w+|chunk_state_\w+|output_\w+)", err)
+            in_blake3 = frame is not None or "/repo/c/" in err
+            sig = "%s/%s/%s/%s" % ("C08" if kind == "tsan" and ctx.pid in ("C08", "C18") else "C07", kind, variant, frame.group(1) if frame else "unattributed")
+            if kind == "tsan" and ctx.pid in ("C08", "C18"):
+                sig = "%s/tsan/%s/%s" % (ctx.pid, variant, frame.group(1) if frame else "unattributed")
+            if in_blake3:
+                if _own(ctx.pid, sig):
+                    ctx.add_violation(sig, "[%s] %s report at record %d:\n%s" % (name, kind, idx, head[:1200]),
+                                      {"kind": "cdrv", "variant": variant, "san": san, "what": what, "idx": idx, "gen_extra": gen_extra,
+                                       "seed": ctx.seed, "tier": ctx.tier, "scale": scale})
+                else:
+                    other[sig] = other.get(sig, 0) + 1
+            else:
+                ctx.note_inconclusive("%s shard %d: %s report without a BLAKE3 frame: %s" % (name, i, kind, head[:300]))
+            tool_reports.append(kind)
+        elif "== Invalid" in err or "uninitialised value" in err or "== Conditional jump" in err or "Process terminating" in err:
+            # valgrind memcheck
+            blocks = re.split(r"\n==\d+== \n", err)
+            for b in blocks:
+                if "Invalid" in b or "uninitialised" in b or "Conditional jump" in b:
+                    fr = re.search(r"(?:at|by) 0x[0-9A-F]+: (blake3_\w+|_?blake3\w+|wg_\w+)", b)
+                    recs = re.findall(r"REC (\d+)", err[:err.find(b[:40])] if b[:40] in err else "")
+                    idx = int(recs[-1]) if recs else -1
+                    if fr:
+                        sig = "C07/valgrind/%s/%s" % (variant, fr.group(1))
+                        if _own(ctx.pid, sig):
+                            ctx.add_violation(sig, "[%s] memcheck report near record %d:\n%s" % (name, idx, b[:1000]),
+                                              {"kind": "cdrv", "variant": variant, "san": san, "what": what, "idx": idx, "gen_extra": gen_extra,
+                                               "seed": ctx.seed, "tier": ctx.tier, "scale": scale, "wrapper": wrapper})
+                        else:
+                            other[sig] = other.get(sig, 0) + 1
+                    else:
+                        ctx.note_inconclusive("%s shard %d: memcheck report without a BLAKE3 frame: %s" % (name, i, b[:200].replace("\n", " | ")))
+                    tool_reports.append("valgrind")
+        elif rc != 0 or not done:
+            raise HarnessError("%s shard %d: cdrv exited %s without DONE: %s | %s" % (name, i, rc, out[-400:], err[-800:]))
+    if len(samples) == 0:
+        samples.append({"variant": variant, "sanitizer": san, "what": what, "classes": dict(sorted(kc.items())[:8])})
+    obs = {"records": records, "distinct": distinct, "classes": kc, "violation_lines": nviol, "tool_reports": len(tool_reports),
+           "signatures_of_other_properties_seen": other, "shards": shards, "variant": variant, "sanitizer": san,
+           "wrapper": " ".join(wrapper) if wrapper else ""}
+    rule = ("C op-script records executed by cdrv (kernel calls by symbol incl. Windows-GNU assembly through ms_abi trampolines; blake3_hasher API "
+            "histories) with guard-page arenas, canaries and specmodel-computed expected outputs; distinct = distinct (kernel class, structural "
+            "parameters, counter class, placement) / (op, length, seek, mask) buckets counted in a bitmap by the driver")
+    ctx.add_observed(name, records, distinct, samples, rule, obs)
+    if other:
+        ctx.note_inconclusive("%s: signatures belonging to other properties were seen and are reported by their own checks: %s" % (name, sorted(other)[:6]))
+    return obs
+
+
+# --------------------------------------------------------------------------------------------
+# Miri (UB + data-race interpreter) on the Rust monitors
+# --------------------------------------------------------------------------------------------
+MIRI_FEATURES = {"pure": ["--no-default-features", "--features", "std,pure"],
+                 "pure-rayon": ["--no-default-features", "--features", "std,pure,miri_rayon"]}
+
+
+def miri_run(ctx, name, args, shards=16, flavour="pure", miriflags="", timeout=1500, owner=None):
+    """Run `mon <args>` under Miri as `shards` processes. A UB/data-race report whose stack has a
+    frame under /repo is a violation of `owner` (default ctx.pid); one confined to third-party
+    crates is inconclusive; one in the harness itself is a harness error."""
+    owner = owner or ctx.pid
+    tdir = os.path.join(TARGET, "miri")
+    env = env_base()
+    env["RUSTFLAGS"] = "--cfg %s -Ctarget-feature=+sse4.1,+avx2" % GUARD
+    env["MIRIFLAGS"] = ("-Zmiri-disable-isolation " + miriflags).strip()
+    base = ["cargo", "+nightly", "miri", "run", "--offline", "-q", "-p", "mon", "--target-dir", tdir] + MIRI_FEATURES[flavour] + ["--"]
+    rc, out, to = run(base + ["selftest"], cwd=HARNESS, env=env, timeout=1800)
+    if rc != 0:
+        ctx.note_inconclusive("%s: Miri unavailable or build failed: %s" % (name, out[-400:]))
+        return
+    results = [None] * shards
+
+    def one(i):
+        fd, outp = tempfile.mkstemp(prefix="verif-miri-", suffix=".json")
+        os.close(fd)
+        cmd = base + list(args) + ["--seed", str(ctx.seed), "--tier", ctx.tier, "--threads", "1", "--shard", str(i), "--shards", str(shards), "--out", outp]
+        t0 = time.time()
+        rc, out, to = run(cmd, cwd=HARNESS, env=env, timeout=timeout)
+        rep = None
+        if rc == 0:
+            try:
+                rep = json.load(open(outp))
+            except Exception:
+                rep = None
+        try:
+            os.unlink(outp)
+        except OSError:
+            pass
+        results[i] = (rc, out, to, rep, time.time() - t0)
+
+    with concurrent.futures.ThreadPoolExecutor(max_workers=shards) as ex:
+        list(ex.map(one, range(shards)))
+    reports = 0
+    for i, (rc, out, to, rep, wall) in enumerate(results):
+        step = {"step": "%s#%d" % (name, i), "tool": "miri", "wall_s": round(wall, 1), "rc": rc}
+        if to:
+            ctx.note_inconclusive("%s shard %d: Miri watchdog fired" % (name, i))
+            step["verdict"] = "inconclusive"
+        elif rc == 0 and rep is not None:
+            ctx.fold("%s#%d" % (name, i), "miri-" + flavour, "miri", rep, must_observe=False)
+            step["evaluations"] = rep["evaluations"]
+            step["verdict"] = "held"
+        elif "Undefined Behavior" in out or "Data race" in out or "error: unsupported operation" in out:
+            reports += 1
+            frames = re.findall(r"at (/repo/src/[\w./]+:\d+)", out)
+            kind = "data-race" if "Data race" in out else "unsupported" if "unsupported operation" in out else "undefined-behavior"
+            msg = re.search(r"error: (.*)", out)
+            head = msg.group(1)[:300] if msg else kind
+            harness_frames = re.findall(r"at (mon/src/[\w./]+:\d+|monlib/src/[\w./]+:\d+)", out)
+            first = re.search(r"-->\s+(\S+):(\d+)", out)
+            where = first.group(1) if first else ""
+            if kind == "unsupported":
+                ctx.note_inconclusive("%s shard %d: Miri unsupported operation: %s" % (name, i, head))
+                step["verdict"] = "inconclusive"
+            elif where.startswith("/repo/") or (frames and not where.startswith("mon/") and not where.startswith("monlib/")):
+                fn = re.search(r"0: ([\w:<>]+)", out)
+                sig = "%s/miri/%s/%s" % (owner, kind, (fn.group(1) if fn else where)[:80])
+                ctx.add_violation(sig, "[%s] Miri: %s at %s; frames under /repo: %s" % (name, head, where, frames[:4]),
+                                  {"kind": "miri", "args": list(args) + ["--shard", str(i), "--shards", str(shards)], "flavour": flavour, "miriflags": miriflags,
+                                   "seed": ctx.seed, "tier": ctx.tier})
+                step["verdict"] = "violated"
+            elif where.startswith("mon/") or where.startswith("monlib/") or where.startswith("specmodel/"):
+                raise HarnessError("%s shard %d: Miri reports UB inside the harness at %s: %s" % (name, i, where, head))
+            else:
+                ctx.note_inconclusive("%s shard %d: Miri report outside /repo (%s): %s" % (name, i, where, head))
+                step["verdict"] = "inconclusive"
+        else:
+            raise HarnessError("%s shard %d: Miri run failed rc=%s: %s" % (name, i, rc, out[-1200:]))
+        ctx.steps.append(step)
+    obs = ctx.observations.setdefault(name, {})
+    obs["miri_shards"] = shards
+    obs["miri_reports"] = reports
+    obs["miri_flags"] = env["MIRIFLAGS"]
